@@ -432,3 +432,14 @@ def _m_modf(interp, x):
 
 
 BUILTIN_MODELS[_math.modf] = _m_modf
+
+
+import warnings as _warnings
+
+
+def _warn_noop(interp, *a, **k):
+    return None
+
+
+_warn_noop.always = True
+BUILTIN_MODELS[_warnings.warn] = _warn_noop
